@@ -98,6 +98,8 @@ class Emitter:
         self.cls_tags = {}
         self.file_undefs = {}
         self.dyn_cache = {}
+        self._touch_cache = {}
+        self.touched = set()   # (class, member) pairs that got a VB_TOUCH hook
         for (f, line, text) in unit.pp:
             parts = text.split()
             if parts[0] == '#undef' or (parts[0] == '#' and parts[1] == 'undef'):
@@ -542,10 +544,14 @@ class Emitter:
             r = self.lookup_member(cname, e[2])
             if r is None: raise EmitError('%s: no member %s in %s' % (cx.fname, e[2], cname))
             path, mty, owner = r
+            if is_ptr and ot != 'self': self.note_touch(cx, path, mty, obj=ot, cls=cname)
+            elif ot == 'self': self.note_touch(cx, path, mty)
             return ('%s%s%s' % (ot, '->' if is_ptr else '.', path), mty)
         if k == 'unop':
+            mark = self.touch_mark(cx)
             t, ty = self.ex(e[2], cx)
             op = e[1]
+            if op in ('&', '++', '--'): self.touch_writes(cx, mark)
             if op == '&':
                 nty = Type(ty.name, ty.args, ty.ptr + 1, False, ty.const, ty.suffix) if ty else None
                 return ('(&' + t + ')', nty)
@@ -563,7 +569,9 @@ class Emitter:
             rty = Type('bool') if op == '!' else ty
             return ('(' + op + t + ')', rty)
         if k == 'postop':
+            mark = self.touch_mark(cx)
             t, ty = self.ex(e[2], cx)
+            self.touch_writes(cx, mark)
             return ('(' + t + e[1] + ')', ty)
         if k == 'binop':
             a, aty = self.ex(e[2], cx)
@@ -594,7 +602,9 @@ class Emitter:
                 r = self.lookup_member(cx.D, e[1][1])
                 if r is not None:   # unevaluated use of a non-static member inside a static method
                     return ('sizeof(((struct %s *)0)->%s)' % (cx.D, r[0]), Type('size_t'))
+            saved = (dict(cx.touch), list(cx.touch_log)) if getattr(cx, 'touch', None) is not None else None
             t, ty = self.ex(e[1], cx)
+            if saved is not None: cx.touch, cx.touch_log = saved      # unevaluated operand: not an access
             return ('sizeof(%s)' % t, Type('size_t'))
         if k == 'index':
             a, aty = self.ex(e[1], cx); i, _ = self.ex(e[2], cx)
@@ -626,6 +636,7 @@ class Emitter:
             r = self.lookup_member(cx.D, name)
             if r is not None:
                 path, mty, owner = r
+                self.note_touch(cx, path, mty)
                 return ('self->' + path, mty)
         r = self.resolve_const([name], cx.D)
         if r: return r
@@ -640,7 +651,9 @@ class Emitter:
 
     def ex_assign(self, e, cx):
         op = e[1]
+        mark = self.touch_mark(cx)
         lt, lty = self.ex(e[2], cx)
+        self.touch_writes(cx, mark)
         rhs = e[3]
         if op == '=' and lty is not None and self.member_kind(lty) == 'vec' and lty.ptr == 0:
             rt, rty = self.ex(rhs, cx)
@@ -774,10 +787,15 @@ class Emitter:
         f = e[1]; args = e[2]
         if f[0] == 'member':
             obj_e, mname, arrow = f[1], f[2], f[3]
+            mark = self.touch_mark(cx)
             ot, oty = self.ex(obj_e, cx)
             kind = self.member_kind(oty) if oty is not None else None
             if oty is not None and oty.ptr == 0 and kind != 'class' and kind != 'sptr':
+                if mname not in self.READONLY_BUILTINS: self.touch_writes(cx, mark)
                 return self.builtin_method(ot, oty, kind, mname, args, cx)
+            if oty is not None and self.class_of(oty) is not None and not arrow and not oty.ptr:
+                fo = self.final_overrider(self.class_of(oty), mname, len(args))
+                if fo is None or not fo[1].get('const'): self.touch_writes(cx, mark)
             if kind == 'sptr' and not arrow:
                 raise EmitError('%s: shared_ptr method .%s' % (cx.fname, mname))
             cname = self.class_of(oty)
@@ -924,7 +942,47 @@ class Emitter:
                 out += c + ' '
         return out
 
+    READONLY_BUILTINS = ('size', 'empty', 'begin', 'cbegin', 'end', 'cend', 'c_str', 'front', 'back', 'length', 'joinable')
+    SYNC_TYPES = ('std::mutex', 'std::condition_variable', 'std::atomic', 'std::thread')
+
+    def touch_class(self, D):
+        """classes whose member accesses get a VB_TOUCH hook: those that own a mutex or a thread"""
+        if D not in self._touch_cache:
+            c = self.classes.get(D)
+            self._touch_cache[D] = bool(c) and any(ty.name in ('std::mutex', 'std::thread') for (ty, n, init, line) in c.members)
+        return self._touch_cache[D]
+
+    def note_touch(self, cx, path, mty, obj='self', cls=None):
+        cls = cls or cx.D
+        if getattr(cx, 'touch', None) is None or not self.touch_class(cls): return
+        if mty.name in self.SYNC_TYPES: return
+        t = (obj, cls, path.replace('.', '_'))
+        cx.touch.setdefault(t, 'r')
+        cx.touch_log.append(t)
+
+    def touch_mark(self, cx):
+        return len(cx.touch_log) if getattr(cx, 'touch', None) is not None else 0
+
+    def touch_writes(self, cx, mark):
+        """the members named since mark are written (assignment target, ++/--, address taken, non-const method)"""
+        if getattr(cx, 'touch', None) is None: return
+        for t in cx.touch_log[mark:]: cx.touch[t] = 'w'
+
     def stmt(self, s, cx, ind):
+        """statement + the VB_TOUCH hooks of the members its own expressions name (nested statements carry theirs)"""
+        if s[0] == 'block' or getattr(cx, 'no_touch', False) or not (cx.D and self.touch_class(cx.D)):
+            return self.stmt1(s, cx, ind)
+        saved = (getattr(cx, 'touch', None), getattr(cx, 'touch_log', None))
+        cx.touch = {}; cx.touch_log = []
+        text = self.stmt1(s, cx, ind)
+        own = cx.touch
+        cx.touch, cx.touch_log = saved
+        pad = '    ' * ind
+        hooks = ''.join(pad + '%s(%s, %s, %s);\n' % (('VB_TOUCH_W' if mode == 'w' else 'VB_TOUCH',) + t) for t, mode in own.items())
+        for t in own: self.touched.add((t[1], t[2]))
+        return hooks + text
+
+    def stmt1(self, s, cx, ind):
         k = s[0]
         pad = '    ' * ind
         if k == 'block':
@@ -1112,6 +1170,8 @@ class Emitter:
             pcx = Ctx(self, cx.D, cx.fd, pname)
             pcx.cname = pname; pcx.exact = cx.exact; pcx.calls = set(); pcx.loops = []; pcx.cleanup = [[]]
             pcx.cur_maythrow = False; pcx.wait_no = 0; pcx.iter_src = {}
+            # the predicate runs inside the wait statement (with the lock held): its member accesses belong to that statement
+            pcx.touch = getattr(cx, 'touch', None); pcx.touch_log = getattr(cx, 'touch_log', None)
             params = ['struct %s *self' % cx.D]
             for n in free:
                 pcx.declare(n, cx.local(n).noref())
@@ -1178,6 +1238,7 @@ class Emitter:
             m, _ = self.ex(init[0], cx)
             cx.declare(name, ty)
             cx.locks.append(m)
+            cx.cleanup[-1].append('VB_UNLOCK(&%s);' % m)
             return pad + 'VB_LOCK(&%s);\n' % m
         kind = self.member_kind(ty)
         if n == 'std::list' and ty.suffix:
@@ -1399,6 +1460,7 @@ class Emitter:
             body += '    VB_SET_CLS(self, %s, %s);\n' % (cname, self.cls_path(cname))
         if fd is not None:
             cx.cleanup = [[], []]
+            cx.no_touch = True     # construction: the object is not shared yet
             body += self.block(fd.body, cx, 1)
         proto = 'void %s(%s)' % (fname, ', '.join(params))
         text = self.hook(fname) + proto + '\nCONTRACT_%s\n{\n%s}\n' % (fname, body)
@@ -1420,6 +1482,7 @@ class Emitter:
         body = ''
         if fd is not None:
             cx.cleanup = [[], []]
+            cx.no_touch = True     # destruction: no other thread may still use the object (precondition of every destructor)
             body += self.block(fd.body, cx, 1)
         for (ty, n, init, line) in reversed(c.members):
             k = self.member_kind(ty)
